@@ -69,7 +69,7 @@ func (b *BlueprintGenericSparseR1C[E]) Solve(s Solver[E], inst Instruction) erro
 		den = s.Add(den, u1)
 		den, ok = s.Inverse(den)
 		if !ok {
-			return errDivideByZero
+			return b.solveUnconstrained(&c, c.XA, s)
 		}
 		v1 := s.GetValue(c.QR, c.XB)
 		v2 := s.GetValue(c.QO, c.XC)
@@ -84,7 +84,7 @@ func (b *BlueprintGenericSparseR1C[E]) Solve(s Solver[E], inst Instruction) erro
 		den = s.Add(den, u2)
 		den, ok = s.Inverse(den)
 		if !ok {
-			return errDivideByZero
+			return b.solveUnconstrained(&c, c.XB, s)
 		}
 
 		v1 := s.GetValue(c.QL, c.XA)
@@ -112,7 +112,7 @@ func (b *BlueprintGenericSparseR1C[E]) Solve(s Solver[E], inst Instruction) erro
 		den := s.GetCoeff(c.QO)
 		den, ok = s.Inverse(den)
 		if !ok {
-			return errDivideByZero
+			return b.solveUnconstrained(&c, c.XC, s)
 		}
 		o = s.Mul(o, den)
 		o = s.Neg(o)
@@ -122,6 +122,19 @@ func (b *BlueprintGenericSparseR1C[E]) Solve(s Solver[E], inst Instruction) erro
 		// all wires are solved, we verify that the constraint hold.
 		// this can happen when all wires are from hints or if the constraint is an assertion.
 		return b.checkConstraint(&c, s)
+	}
+	return nil
+}
+
+// solveUnconstrained handles the case where the coefficient of the only
+// unsolved wire evaluates to zero: the constraint does not determine the wire.
+// As the R1CS solver does, we assign it zero and verify that the constraint
+// holds with the remaining (solved) wires.
+func (b *BlueprintGenericSparseR1C[E]) solveUnconstrained(c *SparseR1C, wire uint32, s Solver[E]) error {
+	var zero E
+	s.SetValue(wire, zero)
+	if err := b.checkConstraint(c, s); err != nil {
+		return fmt.Errorf("%w: %w", errDivideByZero, err)
 	}
 	return nil
 }
